@@ -246,6 +246,10 @@ def strat_seq():
 
     def build(t):
         first, rest = t
+        if first % 11 == 5:
+            # a long run of servers that all earn the same run-time notes (whatever accumulates across targets shows after ten of them)
+            base = dict(special[first % 3])
+            return {'kind': 'seq', 'servers': [dict(base) for _ in range(12 + first % 3)]}
         if first % 3 == 0:
             # twins: the same banner and the same name-lists on every server, only what the probes measure differs
             c = rest[0]
